@@ -88,13 +88,7 @@ Definition json_notes (d : db) (cat name : string) : jnotes :=
   end.
 
 (* ---- displayed name: size suffixes of output_algorithm ---- *)
-Definition zstr_digit (n : Z) : ascii := ascii_of_nat (48 + Z.to_nat n).
-Fixpoint z_digits (fuel : nat) (n : Z) (acc : list ascii) : list ascii :=
-  match fuel with
-  | O => acc
-  | S f => if n <? 10 then zstr_digit n :: acc else z_digits f (n / 10) (zstr_digit (n mod 10) :: acc)
-  end.
-Definition z_to_string (n : Z) : string := if n <? 0 then "-" +++ of_chars (z_digits 40 (- n) []) else of_chars (z_digits 40 n []).
+(* zstr_digit, z_digits, z_to_string: see Base.v (shared with the generated kernels of gen/Tables.v) *)
 
 Record hostkey_info := { hk_size : Z; hk_ca_type : string; hk_ca_size : Z }.
 
